@@ -1980,6 +1980,25 @@ class TupleParser:
 
         return name(tup_tree), attrs(tup_tree), child
 
+    def _check_paramvalue_names(self, tup_tree):
+        """
+        Verify that no PARAMVALUE child element of a response element has a
+        name that is also the name of one of the other child elements.
+
+        The child elements are returned to the callers as a list of tuples
+        that begin with the element name (for ERROR, RETURNVALUE and
+        IRETURNVALUE) or with the parameter name (for PARAMVALUE), so a
+        parameter with such a name could not be told from the element.
+        """
+        for child in kids(tup_tree):
+            if name(child) == 'PARAMVALUE' and attrs(child).get('NAME') in \
+                    ('ERROR', 'RETURNVALUE', 'IRETURNVALUE'):
+                raise CIMXMLParseError(
+                    _format("Element {0!A} has a child element 'PARAMVALUE' "
+                            "with the unsupported parameter name {1!A}",
+                            name(tup_tree), attrs(child)['NAME']),
+                    conn_id=self.conn_id)
+
     def parse_methodresponse(self, tup_tree):
         """
         Parse expected METHODRESPONSE element:
@@ -1997,6 +2016,7 @@ class TupleParser:
         # any combination, any order).
 
         self.check_node(tup_tree, 'METHODRESPONSE', ('NAME',))
+        self._check_paramvalue_names(tup_tree)
 
         return (name(tup_tree),
                 attrs(tup_tree),
@@ -2035,6 +2055,7 @@ class TupleParser:
         """
 
         self.check_node(tup_tree, 'IMETHODRESPONSE', ('NAME',))
+        self._check_paramvalue_names(tup_tree)
 
         return (name(tup_tree), attrs(tup_tree),
                 self.list_of_various(tup_tree,
